@@ -179,6 +179,8 @@ AGLAgrees == Intended.k # "verr" /\ AsValue(Intended) = Ref(name)
 DevLocal == (AsCoded # Intended) => (Fired # {})
 ScalarsOK == \A r \in {Intended, AsCoded} : \A i \in 1..Len(r.v) : r.v[i] >= 0 /\ r.v[i] <= MaxScalar /\ ~Surr(r.v[i])
 AutomatonOK == aut = Run(A0, name)
+\* NOT expected to hold while Dev is non-empty: TLC refutes the as-coded machine (used to exhibit each deviation)
+AsCodedAgrees == AsCoded.k # "verr" /\ AsValue(AsCoded) = Ref(name)
 
 \* every explored name, with what the intended and the as-coded algorithm give (replayed on name2unicode)
 Emit == PrintT("@@" \o ToJson([n |-> name, i |-> Intended, c |-> AsCoded, f |-> Fired]))
